@@ -34,7 +34,7 @@ Part(e, kind) ==
       req  == IF kind = "na" THEN e.reqaddr ELSE e.reqpfx
       has  == e.ia = "both" \/ e.ia = kind
       \* a Reply that (re)binds the other kind extends the one lease record both kinds share
-      refresh == ~has /\ e.rkind = "REPLY" /\ e.op \in {"SOLRC", "REQ", "RENEW", "REBIND"} /\ oval # -1
+      refresh == ~has /\ e.rkind = "REPLY" /\ e.op \in {"SOLRC", "REQ", "RENEW", "REBIND"}
       op   == CASE refresh -> "REFRESH"
                 [] e.op = "SOL" -> "DISC"
                 [] e.op \in {"SOLRC", "REQ"} -> "REQ"
@@ -58,8 +58,16 @@ NodePart(n, kind) == [lease |-> IF kind = "na" THEN n.lease_na ELSE n.lease_pd, 
 
 Tag(S, kind) == {c \o "/" \o kind : c \in S}
 
+\* Whether a Reply about the other kind extended this kind's binding too is the server's choice (one lease record,
+\* one lifetime - or the record was already ended because it had expired): its own lease table after the step
+\* tells which; the obligations then follow from that choice.
+PartAt(e, kind, g, n) ==
+  LET p == Part(e, kind) IN
+  IF p.op = "REFRESH" /\ (p.c = 0 \/ NodePart(n, kind).lease[p.c] # g.bound[p.c].ip \/ NodePart(n, kind).expired[p.c])
+    THEN [p EXCEPT !.op = "INFORM", !.skipped = TRUE] ELSE p
+
 AllClauses(i, a, b, e, n) ==
-  LET ea == Part(e, "na")  ep == Part(e, "pd")
+  LET ea == PartAt(e, "na", a, n)  ep == PartAt(e, "pd", b, n)
       a2 == Step(CfgNA(i), a, ea)  b2 == Step(CfgPD(i), b, ep)
   IN      EdgeClauses(CfgNA(i), a, ea) \cup NodeClauses(CfgNA(i), a2, NodePart(n, "na"))
      \cup EdgeClauses(CfgPD(i), b, ep) \cup NodeClauses(CfgPD(i), b2, NodePart(n, "pd"))
@@ -78,8 +86,8 @@ Next == /\ viol = {}
              LET ed == EdgesOf(sys, node)[k]
                  e  == ed.ev
              IN /\ node' = ed.to
-                /\ gna' = Step(CfgNA(sys), gna, Part(e, "na"))
-                /\ gpd' = Step(CfgPD(sys), gpd, Part(e, "pd"))
+                /\ gna' = Step(CfgNA(sys), gna, PartAt(e, "na", gna, NodeOf(sys, ed.to)))
+                /\ gpd' = Step(CfgPD(sys), gpd, PartAt(e, "pd", gpd, NodeOf(sys, ed.to)))
                 /\ lastop' = e.op
                 /\ viol' = AllClauses(sys, gna, gpd, e, NodeOf(sys, ed.to)) \cap Watch
                 /\ path' = Append(path, ed.id)
